@@ -3,9 +3,9 @@ import ast
 
 from ..repo import AnalysisError
 from ..report import Ob, RuleSpec
-from ..astutil import (src, flat_guards, calls_in, call_name, kwarg, const_value,
+from ..astutil import (flatten_guard, src, flat_guards, calls_in, call_name, kwarg, const_value,
                        iter_own_nodes, ancestors, is_within)
-from ..cfg import cfg_of, Prov
+from ..cfg import cfg_of, Prov, resolve_local
 from .. import variants as V
 
 PROPERTY = "C09"
@@ -294,34 +294,45 @@ def r7_nested_concrete(repo):
                       "argument; found %s deriving from %s" % (f.params[0], src(b) if b is not None else "no bound argument", leaves[:4])))
     # direction of each nested search: along the query direction in covariant position, against it in contravariant one
     gs_name = f.params[3]
-    for i, c in enumerate(cs):
-        d = kwarg(c, "get_subtypes", 2)
+
+    def direction_of(d):
         if d is None:
-            direction = "?"
-        elif isinstance(d, ast.Name) and d.id == gs_name:
-            direction = "same"
-        elif isinstance(d, ast.UnaryOp) and isinstance(d.op, ast.Not) and isinstance(d.operand, ast.Name) and \
+            return "?"
+        if isinstance(d, ast.Name) and d.id == gs_name:
+            return "same"
+        if isinstance(d, ast.UnaryOp) and isinstance(d.op, ast.Not) and isinstance(d.operand, ast.Name) and \
                 d.operand.id == gs_name:
-            direction = "reversed"
-        else:
-            direction = "other:" + src(d)
-        g = _g(c)
+            return "reversed"
+        return "other:" + src(d)
+
+    def context_of(g):
         pos = {t.split(".")[-1] for t, pol in g if pol}
         neg = {t.split(".")[-1] for t, pol in g if not pol}
         if "is_covariant()" in pos:
-            ctx = "covariant"
-        elif "is_contravariant()" in pos or {"is_covariant()", "is_invariant()"} <= neg or \
-                ("is_covariant()" in neg and any(t.startswith("is_invariant()") or "is_invariant() or" in t_ for t_, p_ in g
-                                                  if not p_ for t in [t_.split(".")[-1]])):
-            ctx = "contravariant"
-        else:
-            ctx = "undetermined"
-        want = {"covariant": "same", "contravariant": "reversed"}.get(ctx)
-        obs.append(Ob("C09-R7", "_find_candidate_type_args:_find_types#%d:direction-follows-variance" % i, _w(f, c),
-                      want is not None and direction == want,
+            return "covariant"
+        if "is_contravariant()" in pos or {"is_covariant()", "is_invariant()"} <= neg:
+            return "contravariant"
+        return "undetermined"
+
+    for i, c in enumerate(cs):
+        d = resolve_local(f.node, kwarg(c, "get_subtypes", 2), c)
+        g = _g(c)
+        # a conditional direction (`a if t.is_covariant() else b`) is one case per branch
+        cases = [(g, d)]
+        if isinstance(d, ast.IfExp):
+            cases = [(g + [(src(t_), p_) for t_, p_ in flatten_guard(d.test, True)], d.body),
+                     (g + [(src(t_), p_) for t_, p_ in flatten_guard(d.test, False)], d.orelse)]
+        okd, detail = True, []
+        for gg, dd in cases:
+            ctx, direction = context_of(gg), direction_of(dd)
+            want = {"covariant": "same", "contravariant": "reversed"}.get(ctx)
+            detail.append("%s position -> %s direction" % (ctx, direction))
+            if want is None or direction != want:
+                okd = False
+        obs.append(Ob("C09-R7", "_find_candidate_type_args:_find_types#%d:direction-follows-variance" % i, _w(f, c), okd,
                       "a nested search for type arguments runs in the query direction where the position is covariant and "
-                      "in the opposite direction where it is contravariant; this call is in a %s position (guards %s) and "
-                      "searches in the %s direction" % (ctx, [t for t, p_ in g if p_] + ["not " + t for t, p_ in g if not p_], direction)))
+                      "in the opposite direction where it is contravariant; this call: %s (guards %s)"
+                      % ("; ".join(detail), [t for t, p_ in g if p_] + ["not " + t for t, p_ in g if not p_])))
     return obs
 
 
